@@ -956,7 +956,7 @@ type progress struct {
 	act  atomic.Value
 }
 
-var prunedFloors = map[uint64][]uint64{8188: {8186, 5000, 8188}, 16380: {12000, 16378, 8192}}
+var prunedFloors = map[uint64][]uint64{8188: {8186, 5000, 8187}, 16380: {12000, 16378, 8192}}
 
 func replayOne(in *input, idx int, beh []step, m meta, prog *progress) (oc outcome) {
 	oc = outcome{index: idx, actions: map[string]int{}, conform: true, windowsHit: map[string]int{}}
